@@ -40,7 +40,7 @@ def handle (rep : Report) (ln : Nat) (toks : List String) (obs : String) : Repor
         | none => { rep.msg s!"MONITOR property=C19 clause=marshal_bytes line={ln}" with monitorFails := rep.monitorFails + 1 }
       if obs.startsWith mine then rep
       else { rep.msg s!"DIVERGE line={ln} model={mine.take 80} impl={obs.take 80}" with diverged := rep.diverged + 1 }
-  | ["marshalerr"] =>
+  | "marshalerr" :: _ =>
     let rep := rep.bump "ck.inner_error"
     -- the model passes the error through
     if marshal field wire none == none && obs.startsWith "err" then rep
